@@ -101,7 +101,8 @@ class System:
             elif n == "instparam":
                 self.insts[a["i"] - 1].param[a["n"]]
             elif n == "classset":
-                setattr(self.classes[a["c"]], a["n"], self.val(a["v"]))
+                cls = self.classes[a["c"]]
+                setattr(cls, a["n"], float(getattr(cls, a["n"])) if a["v"]["t"] == "badeq" else self.val(a["v"]))
             elif n == "addparam":
                 self.classes[a["c"]].param.add_parameter(a["n"], param.Integer(self.val(a["v"]), bounds=(0, 5)))
             elif n == "new":
@@ -109,7 +110,7 @@ class System:
                 self.insts.append(self.classes[a["c"]](**kw))
             elif n == "instset":
                 i = self.insts[a["i"] - 1]
-                v = getattr(i, a["n"]) if a["v"]["t"] == "same" else self.val(a["v"])
+                v = getattr(i, a["n"]) if a["v"]["t"] == "same" else float(getattr(i, a["n"])) if a["v"]["t"] == "badeq" else self.val(a["v"])
                 if a["route"] == "attr":
                     setattr(i, a["n"], v)
                 else:
